@@ -273,7 +273,7 @@ func c08Alphabet(fids []p9p.Fid, rich bool) []SOp {
 	// the access part of a mode is its low two bits: OTRUNC / ORCLOSE ride on top
 	modes := []p9p.Flag{p9p.OREAD, p9p.OWRITE, p9p.ORDWR, p9p.OWRITE | p9p.OTRUNC}
 	if rich {
-		modes = append(modes, p9p.OEXEC, p9p.OWRITE|p9p.ORCLOSE, p9p.OREAD|p9p.ORCLOSE, p9p.ORDWR|p9p.OTRUNC|p9p.ORCLOSE)
+		modes = append(modes, p9p.OEXEC, p9p.OWRITE|p9p.ORCLOSE)
 	}
 	for _, f := range fids {
 		for _, m := range modes {
@@ -290,7 +290,7 @@ func c08Alphabet(fids []p9p.Fid, rich bool) []SOp {
 			add(SOp{Kind: k, Fid: f})
 		}
 		// the same operations issued with an already cancelled context
-		if f != 7 {
+		if f == 0 || f == 1 {
 			for _, k := range []string{"read", "write", "stat", "clunk"} {
 				add(SOp{Kind: k, Fid: f, Dead: true})
 			}
@@ -375,7 +375,7 @@ func reportSeq(c *core.Ctx, st *explore.SeqStats[SOp], what string) {
 
 func c08(c *core.Ctx) {
 	vsync.SeqMode = true
-	c.Budget(70*time.Second, 10*time.Minute)
+	c.Budget(70*time.Second, 13*time.Minute)
 	c.SetRule("breadth-first search over histories of session operations (attach/walk/open/create/read/write/stat/wstat/clunk/remove over fids {0,1,7,NOFID}, name lists giving clone/complete/not-found/partial walks, 3-5 open modes) with at most one injected file-system failure or early-stopping walk per history; each history runs on a fresh SFileSys over an instrumented mock file system; after every step the result class and the dumped fid table (hook) are compared with the reference fid table; states with equal reference state are merged; outcome = operation kind x result class")
 	c.Assume("reference fid table written from the property statement (DESIGN.md appendix B)", "walk/create from an already opened fid is left open by the statement and kept out of the alphabet", "a Lock of an already held per-fid mutex in a single-threaded history is a self-deadlock and is reported as 'never returns'")
 	depth, rich, dev := 16, false, 1
